@@ -92,6 +92,12 @@ func snap(xs ...*big.Int) []string {
 
 func CheckInt(r *sim.Rand, rep Reporter) {
 	a, b := GenBig(r, 255, true), GenBig(r, 255, true)
+	if r.Chance(4) {
+		// pairs around the machine-word bounds (where a word-sized fast path would go wrong)
+		w := []int64{math.MinInt64, math.MinInt64 + 1, math.MaxInt64, math.MaxInt64 - 1, -1, 1, 2, -2, 1 << 31, -(1 << 31), 1 << 32, (1 << 32) - 1, 3037000499, 3037000500, -3037000500}
+		a, b = big.NewInt(w[r.Intn(len(w))]), big.NewInt(w[r.Intn(len(w))])
+		rep.Count("c18.int.word_boundary_pairs", 1)
+	}
 	ia, ib := sdk.NewIntFromBigInt(a), sdk.NewIntFromBigInt(b)
 	before := snap(ia.BigInt(), ib.BigInt())
 	type bin struct {
